@@ -1,5 +1,6 @@
 //! C04: a created patch turns the old tree into the new tree.
-//! Case: `pair a=<tree> b=<tree>` (tree grammar: lean/PhysisModel/Base/FsText.lean).
+//! Cases: `pair a=<tree> b=<tree>` and `cbytes a=<tree> b=<tree>` (tree grammar:
+//! lean/PhysisModel/Base/FsText.lean); `cbytes` compares the bytes of the created patch with the model.
 //! The run stage materialises A, B and a copy of A, calls `ZiPatch::create(A, B)`, writes the patch
 //! outside the trees, applies it to the copy with `ZiPatch::apply`, and prints the regular files of
 //! the copy; `pure=1` when A and B are byte-for-byte what they were before `create`.
@@ -117,6 +118,14 @@ pub fn generate(thorough: bool, seed: u64, out: &mut dyn Write) {
         writeln!(out, "pair a=d0/f0:{};f1:01 b=d0/f0:{};d1/d0/f2.bin:{}", c, c2, c).unwrap();
     }
     writeln!(out, "pair a=- b=-").unwrap();
+    // the bytes of the created patch against the writer model (listing order forced)
+    writeln!(out, "cbytes a=- b=-").unwrap();
+    for &n in SIZES.iter() {
+        writeln!(out, "cbytes a=- b=f0:~{}.7", n).unwrap();
+        writeln!(out, "cbytes a=d0/f0:~{}.7 b=-", n).unwrap();
+        writeln!(out, "cbytes a=d0/f0:~{}.7 b=d0/f0:~{}.9", n, n).unwrap();
+        writeln!(out, "cbytes a=f0:01 b=d1/Dir_2/f1.bin:~{}.3", n).unwrap();
+    }
     let n = if thorough { 5000 } else { 150 };
     for i in 0..n {
         let nfiles = match rng.below(6) {
@@ -157,9 +166,10 @@ fn same(root: &std::path::Path, es: &Entries) -> bool {
 
 pub fn run(case: &str, input: &str) -> String {
     let f: Vec<&str> = input.split(' ').collect();
-    if f.len() != 3 || f[0] != "pair" {
+    if f.len() != 3 || (f[0] != "pair" && f[0] != "cbytes") {
         return "bad-case".into();
     }
+    let bytes_only = f[0] == "cbytes";
     let (Some(a), Some(b)) = (f[1].strip_prefix("a="), f[2].strip_prefix("b=")) else {
         return "bad-case".into();
     };
@@ -178,13 +188,16 @@ pub fn run(case: &str, input: &str) -> String {
     let pp = patch_path.to_str().unwrap().to_string();
     let res = guarded(move || {
         let Some(patch) = physis::patch::ZiPatch::create(&sa, &sb) else { return "none".to_string() };
+        if bytes_only {
+            return format!("patch={}", show_content(&patch));
+        }
         std::fs::write(&pp, &patch).unwrap();
         match physis::patch::ZiPatch::apply(&sw, &pp) {
             Ok(()) => "ok".to_string(),
             Err(e) => format!("err:{:?}", e),
         }
     });
-    if res.starts_with("panic") || res == "none" {
+    if res.starts_with("panic") || res == "none" || bytes_only {
         return res;
     }
     let pure = same(&da, &ea) && same(&db, &eb);
